@@ -134,4 +134,19 @@ def query_shapes(rng, lanelets, G):
             out.append((k, Polygon(tri), True))
         else:
             out.append((k, Rectangle(2.0, 1.0, np.array([5e3, 5e3]), 0.0), True))
+    # a rotated box whose centre lies OUTSIDE the lanelet's bounding box, farther than half its longer side, so that at
+    # most a corner reaches in (the case every centre-distance or bounding-circle shortcut gets wrong)
+    import math
+    la = rng.choice(lanelets)
+    ring = np.concatenate((la.right_vertices, la.left_vertices[::-1]))
+    xmin, ymin, xmax, ymax = ring[:, 0].min(), ring[:, 1].min(), ring[:, 0].max(), ring[:, 1].max()
+    L, W = rng.choice([(2.0, 2.0), (4.5, 1.8), (5.0, 2.0)])
+    th = math.pi / 4 if L == W else math.atan2(L, W) * rng.choice([1, -1])  # diagonal on the y axis
+    half = (L * abs(math.sin(th)) + W * abs(math.cos(th))) / 2
+    lo = 0.5 * max(L, W)
+    d = lo + (half - lo) * rng.choice([0.2, 0.5, 0.8])
+    side = rng.choice(["below", "above"])
+    cx = float(rng.uniform(xmin, xmax))
+    cy = float(ymin - d) if side == "below" else float(ymax + d)
+    out.insert(0, ("rot-rect-corner", Rectangle(L, W, np.array([cx, cy]), th), False))
     return out
